@@ -37,6 +37,7 @@ func runC04(p *load.Program, r *oblig.Report) {
 	c04Sanity(p, r)
 	c04Legacy(p, r)
 	c04Sibling(p, r)
+	c12LegacyNegotiate(p, r, "C04.R6 version gate")
 	c04Framing(p, r)
 	c04Primitives(p, r)
 }
